@@ -232,6 +232,7 @@ def Reachable (b : Nat) (src₀ : List α) (ending : Option ε) (s : St α ε) :
 
 /-! ## The inductive invariant -/
 
+/-- the inductive invariant of the transition system, relative to the parameters of `init` -/
 structure Inv (b : Nat) (src₀ : List α) (ending : Option ε) (s : St α ε) : Prop where
   /-- the buffer holds at least one entry -/
   hb : 1 ≤ b
@@ -279,12 +280,13 @@ theorem inv_init {b : Nat} {src₀ : List α} {ending : Option ε} (hb : 1 ≤ b
 theorem cJoinB_cShut (c : CPc α) : cJoinB c = true → cShut c = true := by cases c <;> simp
 theorem cPost_cShut (c : CPc α) : cPost c = true → cShut c = true := by cases c <;> simp
 theorem cShut_cLeft (c : CPc α) : cShut c = true → cLeft c = true := by cases c <;> simp
-theorem raisedAt_not_post (c : CPc α) (cl : Bool) (ex : Option ε) (h : cPost c = false) :
-    raisedAt c cl ex = none := by cases c <;> simp_all
 
-/-- closes the goals `Inv … s'` once `s'` is an explicit record -/
+/-- closes the goal `Inv … s'` once `s'` is an explicit record: normalise the hypotheses once
+    (plain `simp`, no rewriting of hypotheses with each other), then one `grind` per conjunct -/
 local macro "inv_tac" : tactic =>
-  `(tactic| (simp at * <;> constructor <;> (try simp) <;> grind [okQ_append, handW_wDone, rp_wDone, nx_wDone, wPast_wDone, okQ_nil, items_nil, hasS_nil]))
+  `(tactic| (simp at * <;> constructor <;> (try simp) <;>
+      grind [okQ_append, handW_wDone, rp_wDone, nx_wDone, wPast_wDone, okQ_nil, items_nil,
+        hasS_nil]))
 
 section Step
 variable {b : Nat} {src₀ : List α} {ending : Option ε} {s s' : St α ε}
@@ -591,5 +593,203 @@ theorem inv_reachable (hb : 1 ≤ b) (h : Reachable b src₀ ending s) : Inv b s
   exact inv_run (inv_init hb) hr
 
 end Step
+
+/-! ## Consequences of the invariant -/
+
+section Conseq
+variable {b : Nat} {src₀ : List α} {ending : Option ε} {s s' : St α ε}
+
+/-- while the generator is not suspended at a `yield` and the run is not over, one of the two
+    threads can move -/
+theorem inv_no_deadlock (h : Inv b src₀ ending s) (hnt : ¬ terminal s) (hy : s.c ≠ .cYield) :
+    (∃ s', step s .worker = some s') ∨ (∃ s', step s .consumer = some s') := by
+  obtain ⟨b', q, sh, ex, src, en, pu, de, cl, ra, w, c⟩ := s
+  obtain ⟨hb, sb, se, qb, shut, join, after, okq, sent, dead, fifo, pre, len, exc, past, norm,
+    rais, pull, pullS⟩ := h
+  simp only [terminal] at *
+  cases c with
+  | cGet =>
+    cases q with
+    | cons y rest => right; cases y <;> simp [step]
+    | nil =>
+      left
+      have hb' : 0 < b' := by omega
+      cases w <;> try (simp [step, hb']; done)
+      · cases src <;> cases en <;> simp [step]
+      · simp_all
+  | cHave x => right; simp [step]
+  | cYield => simp at hy
+  | cFin => right; simp [step]
+  | cDrain => right; cases q <;> simp [step]
+  | cJoin =>
+    cases w <;> try (left; simp [step]; done)
+    · left; cases src <;> cases en <;> simp [step]
+    · left; simp at join; simp [step, join]; omega
+    · left; simp at join; simp [step, join]; omega
+    · right; simp [step]
+  | cAfter => right; simp [step]
+  | cDone => simp_all
+
+theorem inv_worker_exited (h : Inv b src₀ ending s) (hc : s.c = .cAfter ∨ s.c = .cDone) :
+    s.w = .wDone := by
+  apply h.after
+  rcases hc with hc | hc <;> simp [hc]
+
+theorem inv_fifo (h : Inv b src₀ ending s) (hs : s.shutdown = false) :
+    s.delivered ++ hand_c s ++ items s.q ++ hand_w s ++ s.src = src₀ := by
+  simpa [hand_c, hand_w] using h.fifo hs
+
+theorem inv_complete (h : Inv b src₀ ending s) (ht : terminal s) (hcl : s.closed = false) :
+    s.delivered = src₀ ∧ s.raised = ending := by
+  obtain ⟨hc, hw⟩ := ht
+  have hn := h.norm hcl (by simp [hc])
+  refine ⟨hn.2.1, ?_⟩
+  rw [h.rais, hc, hcl]
+  simpa using hn.2.2
+
+theorem inv_closed (h : Inv b src₀ ending s) (ht : terminal s) (hcl : s.closed = true) :
+    s.delivered <+: src₀ ∧ s.raised = none := by
+  obtain ⟨hc, hw⟩ := ht
+  refine ⟨h.pre, ?_⟩
+  rw [h.rais, hc, hcl]
+  rfl
+
+theorem inv_pulled_bound (h : Inv b src₀ ending s) :
+    s.pulled ≤ s.delivered.length + s.b + 2 := by
+  have h1 := h.sb
+  have h2 := h.qb
+  have h3 := items_length_le s.q
+  have h4 := handC_length_le s.c
+  have h5 := handW_length_le s.w
+  cases hs : s.shutdown with
+  | false => have := h.pull hs; omega
+  | true => have := h.pullS hs; omega
+
+end Conseq
+
+/-! ## Termination measures -/
+
+/-- the worker holds an item -/
+def hold : WPc α → Nat
+  | .wChk1 _ => 1
+  | .wPut _ => 1
+  | _ => 0
+
+/-- the worker thread has not finished -/
+def alive : WPc α → Nat
+  | .wDone => 0
+  | _ => 1
+
+/-- rank of the worker's program point -/
+def rW : WPc α → Nat
+  | .wDone => 0 | .wPutS => 1 | .wFin => 2 | .wNext => 3
+  | .wChk2 => 4 | .wPut _ => 5 | .wChk1 _ => 6 | .w0 => 7
+
+/-- rank of the consumer's program point -/
+def rC : CPc α → Nat
+  | .cDone => 0 | .cAfter => 1 | .cJoin => 2 | .cDrain => 3
+  | .cFin => 4 | .cGet => 5 | .cYield => 6 | .cHave _ => 7
+
+/-- rank of the worker's program point once `shutdown` is set -/
+def rW2 : WPc α → Nat
+  | .wDone => 0 | .wPutS => 1 | .wFin => 2 | .wChk2 => 3
+  | .wPut _ => 4 | .wChk1 _ => 5 | .wNext => 6 | .w0 => 7
+
+/-- number of entries that still have to pass through the queue, plus one for a live worker -/
+def tokens (s : St α ε) : Nat := s.src.length + hold s.w + s.q.length + alive s.w
+
+/-- decreases with every step of every thread and of the environment -/
+def mu (s : St α ε) : Nat := 3 * tokens s + 4 * s.src.length + rW s.w + rC s.c
+
+/-- does not mention the source; decreases with every step once `shutdown` is set -/
+def mu2 (s : St α ε) : Nat := 3 * (s.q.length + rp s.w) + rW2 s.w + rC s.c
+
+theorem mu_step {s s' : St α ε} {t : Tid} (hs : step s t = some s') : mu s' < mu s := by
+  obtain ⟨b', q, sh, ex, src, en, pu, de, cl, ra, w, c⟩ := s
+  cases t with
+  | worker =>
+    cases w <;> simp only [step] at hs <;> (try split at hs) <;> (try split at hs) <;>
+      simp only [Option.some.injEq, reduceCtorEq] at hs <;> subst hs <;> cases sh <;>
+      simp [mu, tokens, hold, alive, rW] <;> omega
+  | consumer =>
+    cases c <;> simp only [step] at hs <;> (try split at hs) <;>
+      simp only [Option.some.injEq, reduceCtorEq] at hs <;> subst hs <;>
+      simp [mu, tokens, rC] <;> omega
+  | resume =>
+    cases c <;> simp only [step, Option.some.injEq, reduceCtorEq] at hs
+    subst hs; simp [mu, tokens, rC]
+  | close =>
+    cases c <;> simp only [step, Option.some.injEq, reduceCtorEq] at hs
+    subst hs; simp [mu, tokens, rC]
+
+theorem mu2_step {s s' : St α ε} {t : Tid} (hsh : s.shutdown = true) (hs : step s t = some s') :
+    mu2 s' < mu2 s := by
+  obtain ⟨b', q, sh, ex, src, en, pu, de, cl, ra, w, c⟩ := s
+  simp only at hsh
+  subst hsh
+  cases t with
+  | worker =>
+    cases w <;> simp only [step, ↓reduceIte] at hs <;> (try split at hs) <;> (try split at hs) <;>
+      simp only [Option.some.injEq, reduceCtorEq] at hs <;> subst hs <;>
+      simp [mu2, rW2] <;> omega
+  | consumer =>
+    cases c <;> simp only [step] at hs <;> (try split at hs) <;>
+      simp only [Option.some.injEq, reduceCtorEq] at hs <;> subst hs <;>
+      simp [mu2, rC] <;> omega
+  | resume =>
+    cases c <;> simp only [step, Option.some.injEq, reduceCtorEq] at hs
+    subst hs; simp [mu2, rC]
+  | close =>
+    cases c <;> simp only [step, Option.some.injEq, reduceCtorEq] at hs
+    subst hs; simp [mu2, rC]
+
+/-- the flag is never reset -/
+theorem shutdown_step {s s' : St α ε} {t : Tid} (hsh : s.shutdown = true)
+    (hs : step s t = some s') : s'.shutdown = true := by
+  obtain ⟨b', q, sh, ex, src, en, pu, de, cl, ra, w, c⟩ := s
+  simp only at hsh
+  subst hsh
+  cases t with
+  | worker =>
+    cases w <;> simp only [step] at hs <;> (try split at hs) <;> (try split at hs) <;>
+      simp only [Option.some.injEq, reduceCtorEq] at hs <;> subst hs <;> rfl
+  | consumer =>
+    cases c <;> simp only [step] at hs <;> (try split at hs) <;>
+      simp only [Option.some.injEq, reduceCtorEq] at hs <;> subst hs <;> rfl
+  | resume =>
+    cases c <;> simp only [step, Option.some.injEq, reduceCtorEq] at hs
+    subst hs; rfl
+  | close =>
+    cases c <;> simp only [step, Option.some.injEq, reduceCtorEq] at hs
+    subst hs; rfl
+
+/-- every schedule that can be run from `s` has at most `mu s` steps (no fairness needed) -/
+theorem run_length_le_mu {s s' : St α ε} {sched : List Tid} (hr : run s sched = some s') :
+    sched.length + mu s' ≤ mu s := by
+  induction sched generalizing s with
+  | nil => simp [run] at hr; subst hr; simp
+  | cons t ts ih =>
+    simp only [run] at hr
+    split at hr
+    · next s₁ hs =>
+      have h1 := ih hr
+      have h2 := mu_step hs
+      simp only [List.length_cons]; omega
+    · simp at hr
+
+/-- once `shutdown` is set, every schedule has at most `mu2 s` further steps, whatever the
+    source still holds -/
+theorem run_length_le_mu2 {s s' : St α ε} {sched : List Tid} (hsh : s.shutdown = true)
+    (hr : run s sched = some s') : sched.length + mu2 s' ≤ mu2 s := by
+  induction sched generalizing s with
+  | nil => simp [run] at hr; subst hr; simp
+  | cons t ts ih =>
+    simp only [run] at hr
+    split at hr
+    · next s₁ hs =>
+      have h1 := ih (shutdown_step hsh hs) hr
+      have h2 := mu2_step hsh hs
+      simp only [List.length_cons]; omega
+    · simp at hr
 
 end LazyDs.Stp
